@@ -27,23 +27,28 @@ for f in ('patch.diff', 'demo.py', 'NOTES.md'):
     if os.path.exists(os.path.join(wt, f)):
         shutil.copy(os.path.join(wt, f), dst)
 results = {}
-assert sh('git -C /repo status --porcelain').stdout.strip() == '', '/repo not clean'
-ap = sh('git -C /repo apply %s/patch.diff' % dst)
-assert ap.returncode == 0, ap.stdout
+# SEED_EVAL_WT=1: run the checks against the worktree itself (it has the patch applied) through VERIF_REPO, leaving /repo alone — for
+# use while a background run needs /repo unchanged
+INPLACE = bool(os.environ.get('SEED_EVAL_WT'))
+if not INPLACE:
+    assert sh('git -C /repo status --porcelain').stdout.strip() == '', '/repo not clean'
+    ap = sh('git -C /repo apply %s/patch.diff' % dst)
+    assert ap.returncode == 0, ap.stdout
 # the evidence files must describe runs on the unchanged tree only: keep them aside while the patch is applied
 saved_ev = {c: open('/verif/evidence/%s.json' % c).read() for c in checks if os.path.exists('/verif/evidence/%s.json' % c)}
 try:
     for c in checks:
         t0 = time.time()
-        r = sh('cd /verif && ./check %s --tier quick' % c)
+        r = sh(('cd /verif && VERIF_REPO=%s PYTHONPATH=%s ./check %s --tier quick' % (wt, wt, c)) if INPLACE else ('cd /verif && ./check %s --tier quick' % c))
         viol = [l for l in r.stdout.splitlines() if l.startswith('VIOLATION')]
         results[c] = {'exit': r.returncode, 'violation_line': viol[0] if viol else None, 'seconds': round(time.time() - t0, 1)}
         print('check %s: exit %d %s (%.0fs)' % (c, r.returncode, viol[0] if viol else '', time.time() - t0))
 finally:
-    sh('git -C /repo checkout -- .')
+    if not INPLACE:
+        sh('git -C /repo checkout -- .')
     for c, txt in saved_ev.items():
         open('/verif/evidence/%s.json' % c, 'w').write(txt)
-meta = {'id': sid, 'property': prop, 'confirmed_by_demo': confirmed, 'demo_exit_with_change': with_change.returncode,
+meta = {'id': sid, 'property': prop, 'ran_against': 'the worktree with the patch applied (VERIF_REPO)' if INPLACE else '/repo with the patch applied, reverted afterwards', 'confirmed_by_demo': confirmed, 'demo_exit_with_change': with_change.returncode,
         'demo_exit_without_change': without.returncode, 'demo_output_with_change_tail': with_change.stdout[-600:],
         'checks': results, 'caught': any(v['exit'] == 1 and v['violation_line'] for v in results.values()),
         'patch_files': sorted(set(l[6:] for l in open(os.path.join(dst, 'patch.diff')) if l.startswith('+++ b/')))}
